@@ -35,7 +35,8 @@ CLAIMED["C03"] = (
     "refused calls change nothing) and that the code-shaped renumbering of GridImpl.tla refines the plain grid. All maximal bounded "
     "histories from TLC's state dump and -simulate behaviours (2 documents, 2 sheets, tables to 5x5, tile-boundary profiles) are "
     "replayed into the library and compared after every op; long random histories from a spec-independent driver (typed all-distinct "
-    "values, 25x25 tables, save/reopen) are validated event by event by TLC.",
+    "values, 25x25 tables, save/reopen) and the same driver on LOADED documents (every shipped fixture the library writes back unchanged, "
+    "pivot-table documents excepted as the library itself warns) are validated event by event by TLC.",
     "TLC/SANY; the projection (rows(), num_rows/num_cols, Cell.row/col, names) and the concretisation of value tokens; ops outside "
     "the documented domain are not generated",
     "DESIGN.md §4 C03")
